@@ -105,6 +105,10 @@ def build_app(track=None):
     def form():
         return 'form=' + ','.join('%s:%s' % kv for kv in sorted(app.request.forms.items()))
 
+    @app.route('/json', method='POST')
+    def json_():
+        return 'json=%r' % (app.request.json,)
+
     @app.route('/signed')
     def signed():
         m = app.request.query.get('m', 'none')
@@ -137,13 +141,23 @@ def kinds():
         'form': lambda m: dict(method='POST', path='/form', body=mp(m), content_type='multipart/form-data; boundary=B'),
         'urlform': lambda m: dict(method='POST', path='/form', body=('a=' + m + '&b=2').encode(), content_type='application/x-www-form-urlencoded'),
         'signed': lambda m: dict(method='GET', path='/signed', qs='m=' + m),
+        # request errors that carry a message of their own (part without a name; the message quotes the part's headers) ...
+        'noname_part': lambda m: dict(method='POST', path='/form', qs='m=' + m, content_type='multipart/form-data; boundary=B',
+                                      body=('--B\r\nContent-Disposition: form-data; filename="secret-' + m + '.pdf"\r\n\r\nx\r\n--B--\r\n').encode()),
+        # ... and message-less ones of the same class, rendered for a JSON client (the JSON page shows the exception)
+        'badjson_json': lambda m: dict(method='POST', path='/json', qs='m=' + m, content_type='application/json', body=b'{"a": ' + m.encode(),
+                                       headers={'Accept': 'application/json'}),
+        'badchunk_json': lambda m: dict(method='POST', path='/body', qs='m=' + m, stream=b'zz\r\n' + m.encode(), chunked=True, content_length=None,
+                                        headers={'Accept': 'application/json'}),
+        'oversized_json': lambda m: dict(method='POST', path='/body', qs='m=' + m, body=m.encode() * 200, headers={'Accept': 'application/json'}),
+        'goodjson': lambda m: dict(method='POST', path='/json', content_type='application/json', body=('{"m": "' + m + '"}').encode()),
     }
     return K
 
 
 VARIANTS = ['A1', 'B22xx']      # different lengths: pages that embed the URL differ in size
-SUCCESS = {'ok', 'plain', 'raise', 'head', 'gen', 'form', 'urlform', 'signed'}
-SHARED_ERR = {'badchunk', 'badmultipart', 'oversized'}
+SUCCESS = {'ok', 'plain', 'raise', 'head', 'gen', 'form', 'urlform', 'signed', 'goodjson'}
+SHARED_ERR = {'badchunk', 'badmultipart', 'oversized', 'noname_part', 'badjson_json', 'badchunk_json', 'oversized_json'}
 
 
 def environ_for(K, kind, m, track=None):
